@@ -36,22 +36,32 @@ USERDATA = {
     'u1': _ud('u1', 1), 'u2': _ud('u2', 2), 'u3': _ud('u3', 3), 'ui': _ud('ui', 4, state='inactive'),
     'dev': _ud('dev', 5, dev=1), 'auth': _ud('auth', 6, sa=1),
 }
-# caller -> (bearer token or None, username or None)
+# caller -> (session id or None, username or None, how the session id travels)
 CALLERS = {
-    'anonymous': (None, None),
-    'unknown-token': ('tok-of-nobody', None),
-    'inactive': ('tok-ui', 'ui'),
-    'u1': ('tok-u1', 'u1'),
-    'u2': ('tok-u2', 'u2'),
-    'nonmember': ('tok-u3', 'u3'),
-    'developer': ('tok-dev', 'dev'),
-    'auth': ('tok-auth', 'auth'),
+    'anonymous': (None, None, 'none'),
+    'unknown-token': ('tok-of-nobody', None, 'bearer'),
+    'inactive': ('tok-ui', 'ui', 'bearer'),
+    'u1': ('tok-u1', 'u1', 'bearer'),
+    'u2': ('tok-u2', 'u2', 'bearer'),
+    'u2-browser': ('tok-u2', 'u2', 'cookie'),   # session cookie + CSRF token instead of a bearer header
+    'nonmember': ('tok-u3', 'u3', 'bearer'),
+    'developer': ('tok-dev', 'dev', 'bearer'),
+    'auth': ('tok-auth', 'auth', 'bearer'),
+    # thorough tier only
+    'anonymous-browser': (None, None, 'cookie'),
+    'unknown-session-browser': ('tok-of-nobody', None, 'cookie'),
+    'inactive-browser': ('tok-ui', 'ui', 'cookie'),
+    'u1-browser': ('tok-u1', 'u1', 'cookie'),
+    'nonmember-browser': ('tok-u3', 'u3', 'cookie'),
+    'developer-browser': ('tok-dev', 'dev', 'cookie'),
 }
-TOKENS = {tok: USERDATA[u] for tok, u in CALLERS.values() if u}
+TOKENS = {tok: USERDATA[u] for tok, u, _ in CALLERS.values() if u}
+QUICK_CALLERS = ['anonymous', 'unknown-token', 'inactive', 'u1', 'u2', 'u2-browser', 'nonmember', 'developer', 'auth']
 CALLER_ORDER = list(CALLERS)
+API_TOKEN = '<token shown to this caller by GET /api/v1alpha/batches/{batch_id}>'
 
 NONEXISTENT_BATCH = 99
-BATCH_TARGETS = (1, 2, 3, 4, 5, NONEXISTENT_BATCH)
+BATCH_TARGETS = (1, 2, 3, 4, 5, 6, NONEXISTENT_BATCH)
 BP_TARGETS = ('bp', 'bp2', 'bpc', 'nope')
 LOGIN_PREFIX = None  # filled in lazily: deploy_config.external_url('auth', '/user')
 
@@ -219,19 +229,28 @@ def world():
                 for a in w.table('attempts'):
                     if a['batch_id'] == bid and a['end_time'] is None:
                         A(('unschedule', a['job_id'], a['attempt_id'], 'i1'))
+        # batch 6: what POST /batches/create + bunches leave behind before the owner commits: update 1 (token = batch token)
+        # fully staged, not committed
+        spec = {'billing_project': 'bp', 'n_jobs': 1, 'n_job_groups': 0, 'token': 'tb6'}
+        ops.BID = w.run(fe._create_batch(spec, USERDATA['u1'], w.gdb))
+        A(('new_update', 'u1', 'tb6', 1, 0))
+        A(('add_jobs', 'u1', 1, [J(1, abs_group=0)]))
     finally:
         ops.BID = saved_bid
     q("UPDATE batches SET deleted = 1 WHERE id = 3")
     w.run(_drain(w))
 
+    committed1 = {u['batch_id'] for u in w.table('batch_updates') if u['update_id'] == 1 and u['committed']}
     truth = {
-        'batches': {b['id']: {'user': b['user'], 'bp': b['billing_project'], 'deleted': bool(b['deleted'])} for b in w.table('batches')},
+        'batches': {b['id']: {'user': b['user'], 'bp': b['billing_project'], 'deleted': bool(b['deleted']),
+                              'first_update_committed': b['id'] in committed1} for b in w.table('batches')},
         'members': {},
         'bp_status': {b['name']: b['status'] for b in w.table('billing_projects')},
     }
     for r in w.table('billing_project_users'):
         truth['members'].setdefault(r['billing_project'], set()).add(r['user'])
-    assert sorted(truth['batches']) == [1, 2, 3, 4, 5], truth
+    assert sorted(truth['batches']) == [1, 2, 3, 4, 5, 6], truth
+    assert not truth['batches'][6]['first_update_committed'] and truth['batches'][1]['first_update_committed']
     assert truth['batches'][3]['deleted'] and not truth['batches'][1]['deleted']
 
     app = web.Application()
@@ -275,18 +294,17 @@ def _job(i):
 
 
 def request_variants(method, path, cls, target):
-    """[(label, path params, query, json body or None, form or None)] -- minimal requests that pass the validators."""
+    """[(label, path params, query, json body or None, form or None, tag)] -- minimal requests that pass the validators."""
     P = {'batch_id': str(target) if cls and cls.startswith('batch') else None, 'job_id': '1', 'job_group_id': '1', 'update_id': '2',
          'billing_project': target if cls in ('bp-admin', 'bp-read') else None, 'user': 'u2', 'container': 'main', 'filename': 'batch.js'}
     params = {k: P[k] for k in re.findall(r'{(\w+)}', path)}
     V = []
 
-    def add(label, query=None, body=None, form=None, **over):
-        V.append((label, {**params, **over}, query or {}, body, form))
+    def add(label, query=None, body=None, form=None, tag='', **over):
+        V.append((label, {**params, **over}, query or {}, body, form, tag))
 
     if cls == 'batch-write':
-        tok_existing_open = f'tb{target}-u3'      # update 3: staged, uncommitted
-        tok_batch = f'tb{target}'                 # update 1 / batch token: visible to every member through GET batch
+        tok_open = f'tb{target}-u3'      # update 3: staged, uncommitted; its token is not shown by any endpoint
         if path.endswith('/updates/{update_id}/jobs/create'):
             add('job into open update 2', body=[_job(1)])
         elif path.endswith('/jobs/create'):
@@ -295,13 +313,14 @@ def request_variants(method, path, cls, target):
             add('group into open update 2', body=[{'job_group_id': 1, 'absolute_parent_id': 0}])
         elif path.endswith('/updates/create'):
             add('new update, fresh token', body={'token': 'fresh-token', 'n_jobs': 1, 'n_job_groups': 0})
-            add('new update, token of update 1 (= batch token)', body={'token': tok_batch, 'n_jobs': 2, 'n_job_groups': 1})
+            add('new update, replaying the batch token (= token of update 1) that GET batch shows to the caller', tag='api-token',
+                body={'token': API_TOKEN, 'n_jobs': 1, 'n_job_groups': 0})
         elif path.endswith('/update-fast'):
             add('update-fast, fresh token, one job', body={'update': {'token': 'fresh-token', 'n_jobs': 1, 'n_job_groups': 0}, 'bunch': [_job(1)], 'job_groups': []})
-            add('update-fast, token of staged open update 3, empty bunch',
-                body={'update': {'token': tok_existing_open, 'n_jobs': 1, 'n_job_groups': 0}, 'bunch': [], 'job_groups': []})
-            add('update-fast, token of update 1 (= batch token), empty bunch',
-                body={'update': {'token': tok_batch, 'n_jobs': 2, 'n_job_groups': 1}, 'bunch': [], 'job_groups': []})
+            add('update-fast, empty bunch, replaying the batch token (= token of update 1) that GET batch shows to the caller', tag='api-token',
+                body={'update': {'token': API_TOKEN, 'n_jobs': 1, 'n_job_groups': 0}, 'bunch': [], 'job_groups': []})
+            add('update-fast, empty bunch, replaying the token of open update 3 (known to its owner only)', tag='known-token',
+                body={'update': {'token': tok_open, 'n_jobs': 1, 'n_job_groups': 0}, 'bunch': [], 'job_groups': []})
         elif path.endswith('/commit'):
             add('commit staged update 3', update_id='3')
         elif path.endswith('/close'):
@@ -376,10 +395,10 @@ def targets_for(cls):
 # ------------------------------------------------------------------------------------------------------
 
 
-def rights(truth, cls, caller, target, variant_params):
+def rights(truth, cls, caller, target):
     """(may, must): may = the statement permits the caller to be served; must = the caller is squarely inside the
     class and the target exists, so an authentication / authorisation refusal would be wrong."""
-    tok, user = CALLERS[caller]
+    tok, user, _ = CALLERS[caller]
     ud = USERDATA.get(user) if user else None
     authed = ud is not None and ud['state'] == 'active'
     if cls == 'public':
@@ -395,7 +414,7 @@ def rights(truth, cls, caller, target, variant_params):
             return False, False
         member = user in truth['members'].get(b['bp'], ())
         ok = member if cls != 'batch-write' else (user == b['user'])
-        return ok, ok and not b['deleted']
+        return ok, ok and not b['deleted'] and b['first_update_committed']
     if cls == 'bp-read':
         ok = admin or user in truth['members'].get(target, ())
         return ok, ok and truth['bp_status'].get(target) in ('open', 'closed')
@@ -413,35 +432,24 @@ def is_login_redirect(status, location):
 DEFAULT_REASONS = {401: 'Unauthorized', 403: 'Forbidden', 404: 'Not Found'}
 
 
-def run_case(case):
-    """case = (route index, caller, target, variant index).  Returns a json-able row."""
+def _send(w, router, route, caller, params, query, body, form):
+    """One request through dispatcher + middlewares + the registered handler.  -> (status, reason, location, response, exception name)"""
     from aiohttp import web
 
     from vf import batchops as ops
     from vf.minisql import lexer as _lx
 
-    ridx, caller, target, vidx = case
-    w, base, files0, truth, router, fe = world()
-    routes = list(fe.routes)
-    r = routes[ridx]
-    method, path = r.method, r.path
-    cls = classify(method, path)
-    variants = request_variants(method, path, cls, target)
-    label, params, query, body, form = variants[vidx]
-
-    w.restore(base)
-    w.file_store.files.clear()
-    w.file_store.files.update(files0)
-    type(fe.auth).__init__(fe.auth)   # fresh session cache, real constructor
-    dump0 = w.mdb.store.dump()
-
+    method, path = route.method, route.path
     concrete = path
     for k, v in params.items():
         concrete = concrete.replace('{' + k + '}', str(v))
-    tok, user = CALLERS[caller]
+    tok, user, how = CALLERS[caller]
     headers = {}
-    if tok is not None:
+    if how == 'bearer' and tok is not None:
         headers['Authorization'] = f'Bearer {tok}'
+    if how == 'cookie':
+        headers['Cookie'] = '_csrf=csrf-1; session=opaque'
+        headers['X-CSRF-Token'] = 'csrf-1'
     if form is not None:
         headers['Content-Type'] = 'application/x-www-form-urlencoded'
     req = ops.mkreq(w, method, concrete or '/', body=body, headers=headers, query=query or None)
@@ -449,9 +457,11 @@ def run_case(case):
         from urllib.parse import urlencode
 
         req._read_bytes = urlencode(form).encode()
-    req.app.router = router
+    if how == 'cookie' and tok is not None:
+        import aiohttp_session
 
-    out = {'case': list(case), 'route': f'{method} {path}', 'class': cls, 'caller': caller, 'target': target, 'variant': label}
+        req[aiohttp_session.SESSION_KEY] = aiohttp_session.Session(data={'session_id': tok}, new=False)
+    req.app.router = router
 
     async def go():
         from batch.utils import unavailable_if_frozen
@@ -460,8 +470,8 @@ def run_case(case):
         mi = await router.resolve(req)
         if getattr(mi, 'http_exception', None) is not None:
             raise RuntimeError(f'C14 harness: {method} {concrete!r} does not resolve: {mi.http_exception}')
-        if mi.handler is not r.handler and not (path == '' and mi.handler.__name__ == r.handler.__name__):
-            raise RuntimeError(f'C14 harness: {method} {concrete!r} resolves to {mi.handler.__name__}, not {r.handler.__name__}')
+        if mi.handler is not route.handler and not (path == '' and mi.handler.__name__ == route.handler.__name__):
+            raise RuntimeError(f'C14 harness: {method} {concrete!r} resolves to {mi.handler.__name__}, not {route.handler.__name__}')
         mi.add_app(req.app)
         req._match_info = mi
 
@@ -473,20 +483,61 @@ def run_case(case):
 
         return await check_csrf_token(req, frozen)
 
-    status = location = reason = None
-    resp = None
-    exc_name = None
     try:
         resp = w.run(go())
-        status = resp.status
-        location = resp.headers.get('Location')
+        return resp.status, None, resp.headers.get('Location'), resp, None, concrete
     except web.HTTPException as e:
-        status, reason, location = e.status, e.reason, e.headers.get('Location')
+        return e.status, e.reason, e.headers.get('Location'), None, None, concrete
     except Exception as e:  # noqa: BLE001
         if _lx.GAPS or type(e).__name__ in ('ShimGap', 'SqlUnsupported') or 'harness' in str(e):
             raise
-        exc_name = type(e).__name__
-        out['exception'] = f'{type(e).__name__}: {e}'[:200]
+        return None, f'{type(e).__name__}: {e}'[:200], None, None, type(e).__name__, concrete
+
+
+def _subst(x, token):
+    if isinstance(x, dict):
+        return {k: _subst(v, token) for k, v in x.items()}
+    if isinstance(x, list):
+        return [_subst(v, token) for v in x]
+    return token if x == API_TOKEN else x
+
+
+def run_case(case):
+    """case = (route index, caller, target, variant index).  Returns a json-able row."""
+    ridx, caller, target, vidx = case
+    w, base, files0, truth, router, fe = world()
+    routes = list(fe.routes)
+    r = routes[ridx]
+    method, path = r.method, r.path
+    cls = classify(method, path)
+    variants = request_variants(method, path, cls, target)
+    label, params, query, body, form, tag = variants[vidx]
+    tok, user, how = CALLERS[caller]
+
+    w.restore(base)
+    w.file_store.files.clear()
+    w.file_store.files.update(files0)
+    type(fe.auth).__init__(fe.auth)   # fresh session cache, real constructor
+    dump0 = w.mdb.store.dump()
+    out = {'case': list(case), 'route': f'{method} {path}', 'class': cls, 'caller': caller, 'target': target, 'variant': label, 'tag': tag}
+
+    if tag == 'api-token':
+        # the caller first asks the API for the batch; only a token the API itself hands out is replayed
+        shown = None
+        get_batch = [x for x in routes if getattr(x, 'method', None) == 'GET' and getattr(x, 'path', None) == '/api/v1alpha/batches/{batch_id}']
+        if get_batch:
+            st, _, _, rsp, _, _ = _send(w, router, get_batch[0], caller, {'batch_id': str(target)}, None, None, None)
+            if st == 200 and rsp is not None:
+                shown = json.loads(rsp.body.decode()).get('token')
+        out['token_shown_by_api'] = shown is not None
+        body = _subst(body, shown if shown is not None else 'token-not-shown-to-caller')
+        w.client_session.calls.clear()
+        type(fe.auth).__init__(fe.auth)
+
+    status, reason, location, resp, exc_name, concrete = _send(w, router, r, caller, params, query, body, form)
+    if exc_name is not None:
+        out['exception'] = reason
+        reason = None
     dump1 = w.mdb.store.dump()
     changed = dump1 != dump0
     outbound = [c for c in w.client_session.calls if not c[1].endswith('/api/v1alpha/userinfo')]
@@ -501,10 +552,9 @@ def run_case(case):
     out.update(status=status if exc_name is None else f'exception:{exc_name}', login_redirect=login, changed=changed,
                outbound=len(outbound), reason=reason)
 
-    may, must = rights(truth, cls, caller, target, params)
+    may, must = rights(truth, cls, caller, target)
     if cls == 'bp-admin' and may:
-        ud = USERDATA[user]
-        must = ud['is_developer'] == 1 or path.startswith('/api/')
+        must = USERDATA[user]['is_developer'] == 1 or path.startswith('/api/')
     out['may'], out['must'] = may, must
     viol = []
     who = f'{caller} -> {method} {concrete or "/"} [{label}]'
@@ -516,7 +566,7 @@ def run_case(case):
         if changed or files_changed or outbound:
             diff = _diff(dump0, dump1)
             viol.append((f'state-changed-by-outsider:{cls}:{method} {path}',
-                         f'{who}: caller is outside the class "{cls}" (answer {out["status"]}) but state changed: tables {diff}'
+                         f'{who}: caller is outside the class "{cls}" (answer {out["status"]}) but something changed: tables {diff}'
                          f'{", outbound calls " + str(outbound) if outbound else ""}'))
     elif must and exc_name is None and auth_refusal:
         viol.append((f'insider-refused:{cls}:{method} {path}',
@@ -550,7 +600,7 @@ def _payload(resp):
 
 def content_check(truth, cls, path, caller, target, resp, who):
     """Everything a response shows must be something the caller may read."""
-    tok, user = CALLERS[caller]
+    tok, user, _ = CALLERS[caller]
     ud = USERDATA[user]
     admin = ud['is_developer'] == 1 or user == 'auth'
     kind, data = _payload(resp)
@@ -615,9 +665,14 @@ def content_check(truth, cls, path, caller, target, resp, who):
 # ------------------------------------------------------------------------------------------------------
 
 
-def all_cases():
+def callers_for(tier):
+    return list(QUICK_CALLERS) if tier == 'quick' else list(CALLER_ORDER)
+
+
+def all_cases(tier='quick'):
     """(cases, unclassified routes, routes without a request table) -- smallest first: route order, then caller, target."""
     cases, unclassified, norequest = [], [], []
+    callers = callers_for(tier)
     for i, method, path, name, cls in route_table():
         if cls is None:
             unclassified.append((method, path, name))
@@ -629,7 +684,7 @@ def all_cases():
             if not vs:
                 norequest.append((method, path, name))
                 break
-            for caller in CALLER_ORDER:
+            for caller in callers:
                 for v in range(len(vs)):
                     cases.append((i, caller, target, v))
     return cases, unclassified, norequest
@@ -642,7 +697,7 @@ def _run_chunk(chunk):
 def check(tier, seed, procs):
     from vf import boot  # noqa: F401
 
-    cases, unclassified, norequest = all_cases()
+    cases, unclassified, norequest = all_cases(tier)
     ordered = par.rotate(cases, seed)
     n = max(1, min(len(ordered), procs * 4))
     chunks = [ordered[i::n] for i in range(n)]
@@ -659,12 +714,21 @@ def check(tier, seed, procs):
         violations.append({'signature': f'no-request-for-route:{method} {path}',
                            'message': f'route {method} {path} ({name}) is in a known class but the harness has no request for it; its access control is unchecked',
                            'replay': {'unclassified': [method, path]}})
+    # one example per signature: prefer a token the API itself handed to the caller, then a visible state change, then the smallest case
+    pref = sorted(range(len(rows)), key=lambda i: (0 if rows[i]['tag'] != 'known-token' else 1, 0 if rows[i]['changed'] else 1, i))
+    n_by_sig = {}
     for r in rows:
+        for sig, _ in r['viol']:
+            n_by_sig[sig] = n_by_sig.get(sig, 0) + 1
+    for i in pref:
+        r = rows[i]
         for sig, msg in r['viol']:
             if sig in seen:
                 continue
             seen.add(sig)
-            violations.append({'signature': sig, 'message': msg, 'replay': {'case': r['case'], 'route': r['route']}})
+            violations.append({'signature': sig, 'message': msg + f'  [{n_by_sig[sig]} case(s) with this signature]',
+                               'replay': {'case': r['case'], 'route': r['route']}})
+    violations.sort(key=lambda v: v['signature'])
 
     table = route_table()
     by_class, by_verdict, by_status = {}, {}, {}
@@ -698,9 +762,9 @@ def check(tier, seed, procs):
                 'squarely inside it on an existing target (must not be refused for authentication / authorisation)',
         'samples': samples,
         'exhaustive': True,
-        'bounds': f'{len(table)} routes x {len(CALLER_ORDER)} callers x targets (batches {list(BATCH_TARGETS)}: owner/project/deleted seeded as u1/bp, '
-                  f'u2/bp2, u1/bp deleted, u2/bp, inactive/bp, nonexistent; billing projects {list(BP_TARGETS)}) x 1-4 request variants per route; '
-                  'both tiers run the whole space',
+        'bounds': f'{len(table)} routes x {len(callers_for(tier))} callers {callers_for(tier)} x targets (batches {list(BATCH_TARGETS)}: u1/bp, u2/bp2, '
+                  f'u1/bp deleted, u2/bp, inactive-user/bp, u1/bp with update 1 staged but uncommitted, nonexistent; billing projects {list(BP_TARGETS)}) '
+                  'x 1-4 request variants per route; the thorough tier adds the browser-session flavour of every caller',
         'routes_enumerated': [f'{m} {p} -> {c}' for _, m, p, _, c in table],
         'n_routes': len(table),
         'cases_per_class': dict(sorted(by_class.items())),
@@ -716,7 +780,17 @@ def check(tier, seed, procs):
     return {'coverage': cov, 'violations': violations, 'assumptions': ASSUME, 'vacuous': vac}
 
 
-KNOWN_EXCEPTIONS = set()
+# non-HTTP exceptions of handlers seen (and understood) on the unchanged tree; neither is an access decision:
+#  * GET batches/completed does records[-1] on an empty result (caller with no completed batch in reach) -> IndexError
+#  * (owner only) see the third entry
+#  * PATCH batches/{id}/close selects `NOT deleted` from job_groups, which has no such column -> MySQL error 1054 for every caller
+KNOWN_EXCEPTIONS = {
+    ('GET /api/v1alpha/batches/completed', 'exception:IndexError'),
+    ('PATCH /api/v1alpha/batches/{batch_id}/close', 'exception:OperationalError'),
+    # the owner sends update-fast with n_jobs = 1 and an empty bunch under a token that names no update of batch 6:
+    # commit_batch_update answers rc = 1 (wrong number of jobs), _commit_update only translates rc == 2 -> CallError
+    ('POST /api/v1alpha/batches/{batch_id}/update-fast', 'exception:CallError'),
+}
 
 ASSUME = [
     'SQL is executed by the minisql interpreter on the schema / routines parsed from the working tree',
